@@ -409,7 +409,8 @@ func Main(r *core.Run) {
 						r.Report("read", cw, fs)
 					}
 				}
-				if plan.Serve != nil && plan.Nested == 0 {
+				if plan.Serve != nil && plan.Nested == 0 && (r.Quick() || pi%4 == 0) {
+					// (thorough tier: every fourth plan — each of these cases is four loads)
 					// the same fault while another load through the same LinkSystem overlaps with it, before
 					// each of the first three read calls (the last of them is the one that reports the end)
 					for k := 1; k <= 3; k++ {
